@@ -71,8 +71,9 @@ var diffOpts = &canon.Options{
 }
 
 var (
-	fnMarker = regexp.MustCompile(`^\[\d+\]$`)
-	enMarker = regexp.MustCompile(`^\[尾注\d+\]$`)
+	// not anchored: template rendering merges the marker run into the text of its paragraph
+	fnMarker = regexp.MustCompile(`\[\d+\]`)
+	enMarker = regexp.MustCompile(`\[尾注\d+\]`)
 )
 
 func famOfPart(name string) string {
@@ -104,14 +105,9 @@ func splitRegistry(root *canon.Node) (numIDs, fn, en []string) {
 				}
 			}
 		case "t":
-			if len(n.Kids) == 0 {
-				if fnMarker.MatchString(n.Text) {
-					fn = append(fn, n.Text)
-					n.Text = "[#]"
-				} else if enMarker.MatchString(n.Text) {
-					en = append(en, n.Text)
-					n.Text = "[尾注#]"
-				}
+			if len(n.Kids) == 0 && strings.Contains(n.Text, "[") {
+				n.Text = fnMarker.ReplaceAllStringFunc(n.Text, func(m string) string { fn = append(fn, m); return "[#]" })
+				n.Text = enMarker.ReplaceAllStringFunc(n.Text, func(m string) string { en = append(en, m); return "[尾注#]" })
 			}
 		}
 		return true
